@@ -15,11 +15,13 @@ import (
 	"net/url"
 	"os"
 	"regexp"
+	"sort"
 	"strings"
 	"sync"
 
 	"github.com/caddyserver/caddy/v2"
 	"github.com/caddyserver/caddy/v2/modules/caddyhttp"
+	"github.com/caddyserver/caddy/v2/modules/caddyhttp/headers"
 	maphandler "github.com/caddyserver/caddy/v2/modules/caddyhttp/map"
 
 	"verif/harness/internal/core"
@@ -243,4 +245,195 @@ func runMap(line string, f []string) core.Outcome {
 	secretOracle(&o, "map-expands-request-text", fmt.Sprintf("map source %q, regexp %q, request X-In=%q q=%q", source, pat, xin, q),
 		got, secret, source, exM, exN, reM, reN, defM, defN, probe)
 	return o
+}
+
+// ---------------------------------------------------------------- headers handler
+//
+// httphdr <q|s> <addF> <addV> <setF> <setV1> <setV2> <del1> <del2> <repF> <s|a|l> <search|P> <S> <replace> <X-In> <q> <secret>
+// q: the operations are request operations (ApplyToRequest, Host juggling included); s: response
+// operations applied at once to a response header map that already holds upstream-like fields.
+// Initial map on either side: X-In=[xin] X-Fixed=[fixed-abc] X-Two=[one, xin]. "!" = absent.
+// Answer: ok <sorted map dump> <r.Host afterwards>.
+
+var hdrFields = []string{"X-New", "x-in", "X-In", "X-Fixed", "x-two", "{http.request.header.X-In}", "X-{http.request.uri.query.q}", "host", "*", "X Sp", "{zz.unk}"}
+
+var hdrVals = []string{
+	"{http.request.header.X-In}", "v-{http.request.uri.query.q}", "lit", "", "{http.request.header.X-Two}", "{http.request.header.X-New}",
+	"{zz.unk}", "{file." + crlfFile + "}", "\\{a}", "{http.vars.v}", "$1", "{http.request.header.Host}",
+}
+
+var hdrDeletes = []string{"X-Fixed", "x-in", "*", "x-*", "*-two", "*i*", "**", "{http.request.header.X-In}", "X-New", "{zz.unk}", "*{http.request.uri.query.q}"}
+
+func genHdr(rng *core.Rand, emit func(string)) {
+	abs := func(p int, s string) string {
+		if rng.Chance(1, p) {
+			return "!"
+		}
+		return core.Hex(s)
+	}
+	addF, addV := "!", "!"
+	if rng.Chance(2, 3) {
+		addF, addV = core.Hex(rng.Pick(hdrFields)), core.Hex(rng.Pick(hdrVals))
+	}
+	setF, setV1, setV2 := "!", "!", "!"
+	if rng.Chance(2, 3) {
+		setF, setV1, setV2 = core.Hex(rng.Pick(hdrFields)), core.Hex(rng.Pick(hdrVals)), abs(2, rng.Pick(hdrVals))
+	}
+	repF, kind, a, b, repl := "!", "s", "-", "-", "-"
+	if rng.Chance(2, 3) {
+		repF = core.Hex(rng.Pick([]string{"X-In", "x-in", "*", "X-Two", "{http.request.header.X-In}", "X-New", "{zz.unk}"}))
+		kind = rng.Pick([]string{"s", "s", "a", "l"})
+		switch kind {
+		case "s":
+			a = core.Hex(rng.Pick([]string{"x", "{", "}", "{http.request.uri.query.q}", "", "plain", "env", "{zz.unk}"}))
+		case "a":
+			a, b = core.Hex(rng.Pick([]string{"x", "", "{", "pl"})), core.Hex(rng.Pick([]string{"", "}", "n", "y"}))
+		case "l":
+			a = core.Hex(rng.Pick([]string{"x", "{", "}", "env.", "a"}))
+		}
+		repl = core.Hex(rng.Pick([]string{"R", "", "[$1]", "${1}{http.request.uri.query.q}", "$0$0", "{http.request.uri.query.q}", "{env." + secretEnv, "{zz.unk}", "$$", "{"}))
+	}
+	secret := rng.Pick([]string{"S3CR3T-ENV-9942", "S3CR3T-ENV-9942", ""})
+	emit(fmt.Sprintf("httphdr %s %s %s %s %s %s %s %s %s %s %s %s %s %s %s %s", rng.Pick([]string{"q", "s"}), addF, addV, setF, setV1, setV2,
+		abs(2, rng.Pick(hdrDeletes)), abs(3, rng.Pick(hdrDeletes)), repF, kind, a, b, repl,
+		core.Hex(rng.Pick(consAttacker)), core.Hex(rng.Pick(consAttacker)), core.Hex(secret)))
+}
+
+func dumpHeader(h http.Header) string {
+	if len(h) == 0 {
+		return "-"
+	}
+	keys := make([]string, 0, len(h))
+	for k := range h {
+		keys = append(keys, k)
+	}
+	sort.Strings(keys)
+	var parts []string
+	for _, k := range keys {
+		var vs []string
+		for _, v := range h[k] {
+			vs = append(vs, core.Hex(v))
+		}
+		parts = append(parts, core.Hex(k)+"="+strings.Join(vs, ","))
+	}
+	return strings.Join(parts, ";")
+}
+
+func runHdr(line string, f []string) core.Outcome {
+	bad := core.Outcome{Impl: "bad-op"}
+	v, ok := unhexAll(f, map[int]bool{0: true, 1: true, 10: true})
+	if !ok || !isASCII(v...) {
+		return bad
+	}
+	side, addF, addV, setF, setV1, setV2, del1, del2, repF, kind, ra, rb, rrepl, xin, q, secret :=
+		v[1], v[2], v[3], v[4], v[5], v[6], v[7], v[8], v[9], v[10], v[11], v[12], v[13], v[14], v[15], v[16]
+	if (side != "q" && side != "s") || (addF == "!") != (addV == "!") || (setF == "!") != (setV1 == "!") || (setF == "!" && setV2 != "!") ||
+		xin == "!" || q == "!" || secret == "!" || ra == "!" || rb == "!" || rrepl == "!" {
+		return bad
+	}
+	ops := &headers.HeaderOps{}
+	var templates []string
+	if addF != "!" {
+		ops.Add = http.Header{addF: []string{addV}}
+		templates = append(templates, addF, addV)
+	}
+	if setF != "!" {
+		vals := []string{setV1}
+		if setV2 != "!" {
+			vals = append(vals, setV2)
+		}
+		ops.Set = http.Header{setF: vals}
+		templates = append(templates, setF)
+		templates = append(templates, vals...)
+	}
+	for _, d := range []string{del1, del2} {
+		if d != "!" {
+			ops.Delete = append(ops.Delete, d)
+			templates = append(templates, d)
+		}
+	}
+	if repF != "!" {
+		r := headers.Replacement{Replace: rrepl}
+		switch kind {
+		case "s":
+			r.Search = ra
+		case "a", "l":
+			pat, okp := patText(kind, ra, rb)
+			if !okp {
+				return bad
+			}
+			r.SearchRegexp = pat
+		default:
+			return bad
+		}
+		ops.Replace = map[string][]headers.Replacement{repF: {r}}
+		templates = append(templates, repF, r.Search, rrepl)
+	} else if kind != "s" {
+		return bad
+	}
+	h := headers.Handler{}
+	if side == "q" {
+		h.Request = ops
+	} else {
+		h.Response = &headers.RespHeaderOps{HeaderOps: ops}
+	}
+	o := core.Outcome{Tags: []string{"op:httphdr", "hdr-side:" + side}}
+	if err := h.Provision(caddy.Context{}); err != nil {
+		o.Impl = "err:provision"
+		return o
+	}
+	if err := h.Validate(); err != nil {
+		o.Impl = "err:validate"
+		return o
+	}
+	os.Setenv(secretEnv, secret)
+	defer os.Unsetenv(secretEnv)
+	consFiles()
+	req, _ := consRequest(xin, q, "/")
+	initial := func() http.Header {
+		return http.Header{"X-In": []string{xin}, "X-Fixed": []string{"fixed-abc"}, "X-Two": []string{"one", xin}}
+	}
+	rec := httptest.NewRecorder()
+	if side == "q" {
+		req.Header = initial()
+	} else {
+		for k, vs := range initial() {
+			rec.Header()[k] = vs
+		}
+	}
+	var after http.Header
+	var host string
+	panicked := func() (pv any) {
+		defer func() { pv = recover() }()
+		return h.ServeHTTP(rec, req, caddyhttp.HandlerFunc(func(w http.ResponseWriter, r *http.Request) error {
+			if side == "q" {
+				after, host = r.Header.Clone(), r.Host
+			} else {
+				after, host = w.Header().Clone(), r.Host
+			}
+			return nil
+		}))
+	}()
+	if panicked != nil {
+		o.Impl = "panic"
+		return o
+	}
+	o.Impl = "ok " + dumpHeader(after) + " " + core.Hex(host)
+	if strings.ContainsAny(xin+q, "{}") {
+		o.Tags = append(o.Tags, "attacker-value-has-braces")
+	}
+	if repF != "!" {
+		o.Tags = append(o.Tags, "hdr-replace:"+kind)
+	}
+	secretOracle(&o, "headers-expand-request-text", fmt.Sprintf("headers %s-side ops on X-In=%q q=%q", side, xin, q),
+		dumpPlain(after)+"\x00"+host, secret, templates...)
+	return o
+}
+
+func dumpPlain(h http.Header) string {
+	var sb strings.Builder
+	for k, vs := range h {
+		sb.WriteString(k + "\x00" + strings.Join(vs, "\x00") + "\x00")
+	}
+	return sb.String()
 }
